@@ -118,6 +118,13 @@ def check(ctx):
     trues = [n for n in neg if isinstance(n.ast.value, ast.Constant) and n.ast.value.value is True]
     ok = ok and bool(trues) and all(M.dominated_by_edge([n], nt[0], "T") for n in trues)
     ctx.check(ok, "T9-args", mn, "makeNeed wraps in Nact iff the `not` token was consumed", "negation must follow the script")
+    # ... and no form of need gets out of makeNeed without passing the negation decision: every return of a built act is
+    # preceded, on every path, by the test of `negate`
+    rets = [n for n in M.cfg.nodes if n.kind == "return" and n.ast.value is not None]
+    gts = M.ptests("negate")
+    ctx.check(bool(rets) and bool(gts) and all(M.dominated([r], [g for g, _ in gts]) for r in rets), "T9-args", mn,
+              "every return of makeNeed passes the `if negate` decision",
+              "a need form that returns early (e.g. the bare `elapsed`/`recurred` form) silently drops a leading `not`")
     w = [c for n, c in M.calls("acting.Nact")]
     if w:
         kw = {k.arg: src(k.value) for k in w[0].keywords}
